@@ -35,6 +35,9 @@ pub enum Op {
     AddRouteBatch { valid: Vec<(u16, bool, Vec<u16>)>, free: Vec<Vec<(u8, u8)>>, free_first: bool },
     /// remove a registered pair and create it again with the assets in the other order
     RecreatePair { sel: u16 },
+    /// a registered trio: first a second creation in permutation `dup` (must be refused), then remove
+    /// it (naming the assets in permutation `rm`) and create it again in permutation `again`
+    RecreateTrio { sel: u16, dup: u8, rm: u8, again: u8 },
     RemoveRoute { sel: u16 },
     ExecRoute { sel: u16, amount: Uint128 },
     List { what: u8, limit: u8 },
@@ -64,6 +67,7 @@ fn op() -> BoxedStrategy<Op> {
         )
             .prop_map(|(valid, free, free_first)| Op::AddRouteBatch { valid, free, free_first }),
         2 => any::<u16>().prop_map(|sel| Op::RecreatePair { sel }),
+        2 => (any::<u16>(), 0u8..6, 0u8..6, 0u8..6).prop_map(|(sel, dup, rm, again)| Op::RecreateTrio { sel, dup, rm, again }),
         1 => any::<u16>().prop_map(|sel| Op::RemoveRoute { sel }),
         3 => (any::<u16>(), gen::log_uniform(1, 1u128 << 30)).prop_map(|(sel, amount)| Op::ExecRoute { sel, amount: Uint128::new(amount) }),
         7 => (0u8..4, prop_oneof![4 => 1u8..4, 2 => 1u8..=31, 1 => Just(30u8), 1 => Just(31u8), 2 => Just(0u8)]).prop_map(|(what, limit)| Op::List { what, limit }),
@@ -286,11 +290,23 @@ impl Check for Registries {
                     queue.push_front((step, Op::CreatePair { a: y as u8, b: x as u8, stable: false }));
                     Op::RemovePair { sel: *sel, swap_order: true }
                 }
+                Op::RecreateTrio { sel, dup, rm, again } => {
+                    let keys: Vec<[usize; 3]> = r.trios.keys().cloned().collect();
+                    if keys.is_empty() {
+                        continue;
+                    }
+                    let k = keys[gen::idx(*sel, keys.len())];
+                    // queued in reverse: duplicate attempt (runs now), removal, re-creation
+                    queue.push_front((step, Op::CreateTrio { a: k[0] as u8, b: k[1] as u8, c: k[2] as u8, perm: *again }));
+                    queue.push_front((step, Op::RemoveTrio { sel: *sel, perm: *rm }));
+                    rec.class("trio_recreated_after_removal_attempt");
+                    Op::CreateTrio { a: k[0] as u8, b: k[1] as u8, c: k[2] as u8, perm: *dup }
+                }
                 other => other.clone(),
             };
             let op = &op;
             match op {
-                Op::AddRouteValid { .. } | Op::RecreatePair { .. } => unreachable!(),
+                Op::AddRouteValid { .. } | Op::RecreatePair { .. } | Op::RecreateTrio { .. } => unreachable!(),
                 Op::AddRouteBatch { valid, .. } if !valid.is_empty() => unreachable!(),
                 Op::CreatePair { a, b, stable } => {
                     let (a, b) = (*a as usize % N_ASSETS, *b as usize % N_ASSETS);
